@@ -337,9 +337,16 @@ func (p *parser) str() (*Value, error) {
 				return nil, ErrSyntax
 			}
 		default:
-			// copy one (possibly invalid) UTF-8 sequence byte-wise
-			sb.WriteByte(c)
-			p.i++
+			if c < utf8.RuneSelf {
+				sb.WriteByte(c)
+				p.i++
+				continue
+			}
+			// ill-formed UTF-8 inside a string: each offending byte reads as
+			// U+FFFD (Go's documented replacement)
+			r, size := utf8.DecodeRune(p.b[p.i:])
+			sb.WriteRune(r)
+			p.i += size
 		}
 	}
 }
